@@ -194,6 +194,8 @@ impl StorageEngine {
         }
 
         // Block creation if a same-name KG is being dropped (prevents RC-2)
+        #[cfg(feature = "verif-hooks")]
+        crate::verif_hooks::before_lock("se.create.dropping", &|| self.dropping_kgs.try_read().is_some());
         if self.dropping_kgs.read().contains(name) {
             return Err(StorageError::Other(format!(
                 "Knowledge graph '{name}' is being dropped, cannot create"
@@ -202,6 +204,8 @@ impl StorageEngine {
 
         // Atomic check-and-insert to prevent TOCTOU race
         use dashmap::mapref::entry::Entry;
+        #[cfg(feature = "verif-hooks")]
+        crate::verif_hooks::before_lock("se.create.kgs_entry", &|| self.knowledge_graphs.try_entry(name.to_string()).is_some());
         let entry = self.knowledge_graphs.entry(name.to_string());
         match entry {
             Entry::Occupied(_) => {
@@ -256,14 +260,20 @@ impl StorageEngine {
         }
 
         // Add to tombstone BEFORE removing from DashMap (ordering matters for RC-2)
+        #[cfg(feature = "verif-hooks")]
+        crate::verif_hooks::before_lock("se.drop.dropping", &|| self.dropping_kgs.try_write().is_some());
         self.dropping_kgs.write().insert(name.to_string());
 
         // Remove from in-memory DashMap (instant)
+        #[cfg(feature = "verif-hooks")]
+        crate::verif_hooks::before_lock("se.drop.kgs_remove", &|| !self.knowledge_graphs.try_get_mut(name).is_locked());
         self.knowledge_graphs.remove(name);
 
         // Save metadata JSON (small file write, fast)
         self.save_knowledge_graphs_metadata()?;
 
+        #[cfg(feature = "verif-hooks")]
+        crate::verif_hooks::point("se.drop.prepared");
         let elapsed_ms = start.elapsed().as_millis() as u64;
         info!(kg = %name, elapsed_ms, "kg_drop_prepare_complete");
 
@@ -284,6 +294,8 @@ impl StorageEngine {
                 let _ = cleanup.persist.delete_shard(shard);
             }
         }
+        #[cfg(feature = "verif-hooks")]
+        crate::verif_hooks::point("se.drop.shards_deleted");
         if cleanup.data_dir.exists() {
             let _ = fs::remove_dir_all(&cleanup.data_dir);
             // Sync parent directory to ensure directory deletion is durable
@@ -294,6 +306,8 @@ impl StorageEngine {
             }
         }
         // Remove tombstone - name is now safe to reuse
+        #[cfg(feature = "verif-hooks")]
+        crate::verif_hooks::before_lock("se.drop.untombstone", &|| self.dropping_kgs.try_write().is_some());
         self.dropping_kgs.write().remove(&cleanup.name);
         let elapsed_ms = start.elapsed().as_millis() as u64;
         info!(kg = %cleanup.name, elapsed_ms, "kg_drop_finish_complete");
@@ -469,6 +483,8 @@ impl StorageEngine {
         // to prevent a TOCTOU race where a KG drop starts between the check
         // and the persist call. The read lock allows concurrent inserts but
         // blocks KG drops from marking the KG as dropping until we finish.
+        #[cfg(feature = "verif-hooks")]
+        crate::verif_hooks::before_lock("se.insert.dropping", &|| self.dropping_kgs.try_read().is_some());
         let dropping_guard = self.dropping_kgs.read();
         if dropping_guard.contains(kg) {
             return Err(StorageError::KnowledgeGraphNotFound(kg.to_string()));
@@ -483,6 +499,8 @@ impl StorageEngine {
             .knowledge_graphs
             .get(kg)
             .ok_or_else(|| StorageError::KnowledgeGraphNotFound(kg.to_string()))?;
+        #[cfg(feature = "verif-hooks")]
+        crate::verif_hooks::before_lock("se.insert.kg_write", &|| db.try_write().is_some());
         let mut db = db.write();
 
         // Generate shard name and logical time
@@ -517,6 +535,8 @@ impl StorageEngine {
             "persist_append_complete"
         );
 
+        #[cfg(feature = "verif-hooks")]
+        crate::verif_hooks::point("se.insert.persisted");
         // Update in-memory state
         let result = db.insert_in_memory(relation, tuples, time);
         drop(db);
@@ -594,6 +614,8 @@ impl StorageEngine {
         }
 
         // Hold dropping_kgs read guard across the persist operation (same as insert)
+        #[cfg(feature = "verif-hooks")]
+        crate::verif_hooks::before_lock("se.delete.dropping", &|| self.dropping_kgs.try_read().is_some());
         let dropping_guard = self.dropping_kgs.read();
         if dropping_guard.contains(kg) {
             return Err(StorageError::KnowledgeGraphNotFound(kg.to_string()));
@@ -606,6 +628,8 @@ impl StorageEngine {
             .knowledge_graphs
             .get(kg)
             .ok_or_else(|| StorageError::KnowledgeGraphNotFound(kg.to_string()))?;
+        #[cfg(feature = "verif-hooks")]
+        crate::verif_hooks::before_lock("se.delete.kg_write", &|| db.try_write().is_some());
         let mut db = db.write();
 
         // Generate shard name and logical time
@@ -630,6 +654,8 @@ impl StorageEngine {
             self.persist.append(&shard, &updates)?;
         }
 
+        #[cfg(feature = "verif-hooks")]
+        crate::verif_hooks::point("se.delete.persisted");
         // Update in-memory state
         let result = db.delete_in_memory(relation, &tuples, time);
         drop(db);
@@ -1453,6 +1479,8 @@ impl StorageEngine {
             .get(kg)
             .ok_or_else(|| StorageError::KnowledgeGraphNotFound(kg.to_string()))?;
 
+        #[cfg(feature = "verif-hooks")]
+        crate::verif_hooks::before_lock("se.snapshot.kg_read", &|| db.try_read().is_some());
         let db_guard = db.read();
         Ok(db_guard.snapshot())
     }
@@ -1472,6 +1500,8 @@ impl StorageEngine {
 
         // Get snapshot atomically - O(1), no lock needed
         let snapshot = {
+            #[cfg(feature = "verif-hooks")]
+            crate::verif_hooks::before_lock("se.query.kg_read", &|| db.try_read().is_some());
             let db_guard = db.read();
             db_guard.snapshot()
         };
@@ -2187,6 +2217,8 @@ impl KnowledgeGraph {
             new_snapshot.max_result_rows = self.max_result_rows;
             new_snapshot.max_query_cost = self.max_query_cost;
             new_snapshot.hnsw_search_fn = hnsw_fn;
+            #[cfg(feature = "verif-hooks")]
+            crate::verif_hooks::point("se.publish.store");
             self.snapshot.store(Arc::new(new_snapshot));
 
             // Lock drops here AFTER publication - this is the fix for TOCTOU
@@ -2200,6 +2232,8 @@ impl KnowledgeGraph {
             );
             new_snapshot.max_result_rows = self.max_result_rows;
             new_snapshot.max_query_cost = self.max_query_cost;
+            #[cfg(feature = "verif-hooks")]
+            crate::verif_hooks::point("se.publish.store");
             self.snapshot.store(Arc::new(new_snapshot));
         }
 
